@@ -644,6 +644,49 @@ class World:
                 self.pool[op["out"]] = Entry("bytes", last, _np(last))
         return ",".join(outs) or "skipped"
 
+    def op_big_unpack(self, op, p):
+        """A payload large enough for a kernel to split the work, unpacked with several intra-op threads through
+        every entry point (the rest of a run uses small payloads and one thread). Nothing is kept in the pool."""
+        bits = op.get("bits")
+        if bits not in (2, 4):
+            return "skipped"
+        rows, cols = int(op["rows"]), int(op["cols"])
+        raw = np.random.RandomState(int(op["gen"]) % (1 << 32)).randint(0, 256, size=(rows, cols)).astype(np.uint8)
+        data = torch.from_numpy(raw.copy())
+        ref = ref_unpack(raw, bits)
+        outs = []
+        prev = torch.get_num_threads()
+        torch.set_num_threads(int(op.get("threads", 2)))
+        try:
+            for via in op.get("via", ["py", "quanto", "ext"]):
+                if via == "quanto":
+                    out, exc, route = self.routed(lambda: torch.ops.quanto.unpack(data, bits), op, p)
+                else:
+                    px = self.proxy
+                    r0 = px.raised if px else 0
+                    out, exc = _call(lambda: getattr(torch.ops, "quanto_" + via).unpack(data, bits))
+                    route = "ext" if via == "ext" else "python-direct"
+                    self.res["judged"] += 1
+                    expected_raise = via == "ext" and (self.state != "real" and (px is None or px.raised > r0))
+                    if via == "ext" and ((px and px.raised > r0) or (px is None and exc is not None)):
+                        self.fired()
+                    if exc is not None and not expected_raise:
+                        self.violate("entry_raised", "unpack", {"via": via, "state": self.state}, f"quanto_{via}::unpack(bits={bits}) raised {exc!r} on a uint8 tensor of shape {tuple(data.shape)}", p)
+                if exc is not None:
+                    outs.append(f"{via}=raised")
+                    continue
+                ok = self.values(out, ref, bits, route, f"unpack via {via} of a {rows}x{cols} payload with {op.get('threads', 2)} threads", p)
+                outs.append(f"{via}={route}" if ok else f"{via}=WRONG")
+                if ok and route == "ext":
+                    self.probe("large_payload_through_real_kernel_multithreaded")
+        finally:
+            torch.set_num_threads(prev)
+        if not np.array_equal(data.numpy(), raw):
+            self.violate("history", "unpack", {"issue": "input_modified"}, "unpack modified its (large) input", p)
+        self.probe("large_payload_multithreaded")
+        self.log.add("big_unpacked", rows, cols, bits, outs)
+        return ",".join(outs) or "skipped"
+
     def op_pack(self, op, p):
         bits, src = op.get("bits"), op["src"]
         if op["id"] in self.pool or bits not in (2, 4):
@@ -1055,6 +1098,12 @@ def make_plan(prop, seed, cfg):
     P.mandatory(ops)
     while P.left() > 0:
         P.gen_op(ops, 0)
+    if r.random() < 0.06:
+        # once in a while: a payload big enough for a kernel to split the work across threads
+        cols = r.choice([512, 1024, 4096])
+        nbytes = r.choice([40000, 70000, 140000, 300000, 650000])
+        big = {"op": "big_unpack", "bits": r.choice([2, 4]), "rows": max(1, nbytes // cols), "cols": cols, "threads": r.choice([2, 3, 4]), "gen": P.S.sub("big", 0), "via": ["py", "quanto", "ext"]}
+        ops.insert(r.randint(min(2, len(ops)), len(ops)), big)
     if r.random() < 0.5:  # all 256 bytes once more at the end: healed after the faults, or with extensions disabled
         again = {"op": "unpack", "x": "b0", "bits": r.choice(P.sw["bits"]), "via": ["quanto", "ext", "py"]}
         ops += [{"op": "heal"}, again] if P.sw["states"] and r.random() < 0.6 else [{"op": "noext", "body": [again]}]
